@@ -1,3 +1,100 @@
 /- helper lemmas for Props/C06 and Props/C05 -/
 import MiVerif.Gen.Entry
 import MiVerif.Gen.Tables
+
+namespace C06L
+open GenE
+
+theorem two64 : (2:Nat)^64 = 18446744073709551616 := by decide
+
+/-- overflowing product: flag 1 (and the saturated total) -/
+theorem count_size_overflow_of_ge (count size t : Nat) (hc : count < 2^64) (hs : size < 2^64)
+    (h : 2^64 ≤ count * size) :
+    mi_count_size_overflow count size t = (1, 18446744073709551615) := by
+  have h1 : ¬ count = 1 := by
+    intro e; subst e; omega
+  have h2 : count * size ≥ 2^64 := h
+  unfold mi_count_size_overflow mi_mul_overflow umull_overflow
+  simp [h1, h2]
+
+/-- non-overflowing product: flag 0 and the exact product -/
+theorem count_size_overflow_of_lt (count size t : Nat) (h : count * size < 2^64) :
+    mi_count_size_overflow count size t = (0, count * size) := by
+  unfold mi_count_size_overflow mi_mul_overflow umull_overflow
+  by_cases h1 : count = 1
+  · subst h1; simp
+  · have h2 : ¬ (count * size ≥ 2^64) := by omega
+    simp [h1, h2, Nat.mod_eq_of_lt h]
+
+/-- C's `_mi_is_power_of_two` (true for 0) -/
+theorem is_pow2_eq (x : Nat) (hx : x < 2^64) (h0 : x ≠ 0) :
+    _mi_is_power_of_two x = 0 ↔ x &&& (x - 1) ≠ 0 := by
+  rw [two64] at hx
+  have e : (x + 18446744073709551616 - 1) % 18446744073709551616 = x - 1 := by omega
+  unfold _mi_is_power_of_two
+  rw [e]
+  by_cases h : x &&& (x - 1) = 0 <;> simp [h]
+
+/-- the argument check shared by the aligned entry points -/
+theorem bad_alignment (alignment : Nat) (ha : alignment < 2^64)
+    (h : alignment = 0 ∨ alignment &&& (alignment - 1) ≠ 0) :
+    (alignment = 0) ∨ (¬ ((_mi_is_power_of_two alignment) ≠ 0)) := by
+  by_cases h0 : alignment = 0
+  · exact Or.inl h0
+  · right
+    rcases h with h | h
+    · exact absurd h h0
+    · simp [(is_pow2_eq alignment ha h0).2 h]
+
+/-- the decision structure of `_mi_heap_realloc_zero`, in place -/
+theorem realloc_zero_inplace (us : Nat → Nat → Nat) (gsp : Nat → Nat → Nat) (pmz gen : Nat → Nat → Nat → Nat → Nat)
+    (heap p newsize zero_ : Nat)
+    (h : newsize ≤ us p 0 ∧ us p 0 / 2 ≤ newsize ∧ 0 < newsize) :
+    _mi_heap_realloc_zero us gsp pmz gen heap p newsize zero_ = (p, []) := by
+  have hc : ((newsize ≤ us p 0) ∧ (newsize ≥ (us p 0 / 2))) ∧ (newsize > 0) := ⟨⟨h.1, h.2.1⟩, h.2.2⟩
+  unfold _mi_heap_realloc_zero
+  simp only [if_pos hc]
+
+/-- … allocation failed -/
+theorem realloc_zero_fail (us : Nat → Nat → Nat) (gsp : Nat → Nat → Nat) (pmz gen : Nat → Nat → Nat → Nat → Nat)
+    (heap p newsize zero_ : Nat)
+    (hnot : ¬ (newsize ≤ us p 0 ∧ us p 0 / 2 ≤ newsize ∧ 0 < newsize))
+    (hnew : mi_heap_malloc gsp pmz gen heap newsize = 0) :
+    _mi_heap_realloc_zero us gsp pmz gen heap p newsize zero_ = (0, []) := by
+  have hc : ¬ (((newsize ≤ us p 0) ∧ (newsize ≥ (us p 0 / 2))) ∧ (newsize > 0)) := fun hc => hnot ⟨hc.1.1, hc.1.2, hc.2⟩
+  unfold _mi_heap_realloc_zero
+  simp only [if_neg hc, hnew, ne_eq, not_true_eq_false, if_false]
+
+/-- what is written into the new block before the copy (zeroing of the tail / the terminator of a 0-sized block) -/
+def reallocInit (us : Nat → Nat → Nat) (p newsize zero_ newp : Nat) : List (String × List Nat) :=
+  if zero_ ≠ 0 ∧ newsize > us p 0 then
+    [("_mi_memzero", [(newp + (if us p 0 ≥ 8 then (us p 0 + 18446744073709551616 - 8) % 18446744073709551616 else 0)) % 18446744073709551616,
+        (newsize + 18446744073709551616 - (if us p 0 ≥ 8 then (us p 0 + 18446744073709551616 - 8) % 18446744073709551616 else 0)) % 18446744073709551616])]
+  else if newsize = 0 then [("store8", [(newp + 0 * 1) % 18446744073709551616, 0])] else []
+
+theorem reallocInit_no_free (us : Nat → Nat → Nat) (p newsize zero_ newp : Nat) :
+    (reallocInit us p newsize zero_ newp).filter (fun e => e.1 == "mi_free") = [] := by
+  unfold reallocInit
+  split
+  · simp
+  · split <;> simp
+
+/-- … allocation succeeded -/
+theorem realloc_zero_moved (us : Nat → Nat → Nat) (gsp : Nat → Nat → Nat) (pmz gen : Nat → Nat → Nat → Nat → Nat)
+    (heap p newsize zero_ : Nat)
+    (hnot : ¬ (newsize ≤ us p 0 ∧ us p 0 / 2 ≤ newsize ∧ 0 < newsize))
+    (hnew : mi_heap_malloc gsp pmz gen heap newsize ≠ 0) :
+    _mi_heap_realloc_zero us gsp pmz gen heap p newsize zero_ =
+      (mi_heap_malloc gsp pmz gen heap newsize,
+        reallocInit us p newsize zero_ (mi_heap_malloc gsp pmz gen heap newsize) ++
+        (if p ≠ 0 then [("_mi_memcpy", [mi_heap_malloc gsp pmz gen heap newsize, p, min (us p 0) newsize]), ("mi_free", [p])] else [])) := by
+  have hc : ¬ (((newsize ≤ us p 0) ∧ (newsize ≥ (us p 0 / 2))) ∧ (newsize > 0)) := fun hc => hnot ⟨hc.1.1, hc.1.2, hc.2⟩
+  have hmin : (if newsize > us p 0 then us p 0 else newsize) = min (us p 0) newsize := by
+    split <;> omega
+  unfold _mi_heap_realloc_zero reallocInit
+  simp only [if_neg hc, if_pos hnew, hmin]
+  congr 1
+  by_cases hp : p = 0 <;> by_cases hz : (zero_ ≠ 0 ∧ newsize > us p 0) <;> by_cases hn : newsize = 0 <;>
+    simp [hp, hz, hn]
+
+end C06L
